@@ -427,8 +427,10 @@ def new_ltf_plan(**args):
                 # Calculate alpha for the upcoming stage 2
                 pts_left = Jdes - j
                 dftlen = int(np.round(fs / fres_ideal)) # Use the ideal fres for this step
-                if dftlen_crossover == 0:
-                    dftlen_crossover = dftlen # Stage 2 starts on the very first bin
+                if dftlen_crossover < 1:
+                    # Stage 2 starts on the very first bin, or the ideal length
+                    # rounded to zero samples: use at least one sample
+                    dftlen_crossover = max(dftlen, 1)
                 if pts_left > 1:
                     alpha = np.log(Lmin / dftlen_crossover) / (pts_left - 1)
             elif (freslim * fres_ideal)**0.5 > fresmin:
